@@ -756,6 +756,18 @@ fn ratio_of(numer: Option<i32>, denom: Option<i32>) -> Option<Rational32> {
     Rational32::from_integer(numer?).checked_div(&Rational32::from_integer(denom?))
 }
 
+/// The quotient of two big integers as a float. Converting the operands first gives
+/// inf / inf = NaN as soon as both exceed the range of a double, whatever their quotient is;
+/// the exact quotient is converted instead.
+fn big_quotient_to_f64(lhs: &BigInt, rhs: &BigInt) -> f64 {
+    if rhs.sign() == num::bigint::Sign::NoSign {
+        return lhs.to_f64().unwrap_or(f64::NAN) / 0.0;
+    }
+    BigRational::new(lhs.clone(), rhs.clone())
+        .to_f64()
+        .unwrap_or(f64::NAN)
+}
+
 impl Div for &Number {
     type Output = Number;
 
@@ -796,9 +808,7 @@ impl Div for &Number {
                 Number::BigInt(rhs) => {
                     match ratio_of(lhs.to_i32(), rhs.to_i32()) {
                         Some(num) => num.into(),
-                        None => {
-                            (lhs.to_f64().unwrap_or(f64::NAN) / rhs.to_f64().unwrap_or(f64::NAN)).into()
-                        }
+                        None => big_quotient_to_f64(lhs, rhs).into(),
                     }
                 }
                 Number::Float(rhs) => (lhs.to_f64().unwrap() / *rhs).into(),
